@@ -47,6 +47,16 @@ type Report struct {
 	Fixtures  []FixtureResult
 	Extra     map[string]interface{}
 	AltCounts map[string]int // per-rule instance counts seen on the inlining views
+	Covers    map[string]string // function name -> rule that analyses it as part of another construct
+	Alias     map[string]string // while set: obligations of rule k are recorded under rule Alias[k] (a rule set re-run as a helper rule)
+}
+
+// Cover records that a rule has analysed fn's body as part of another construct's obligation.
+func (r *Report) Cover(fn, rule string) {
+	if r.Covers == nil {
+		r.Covers = map[string]string{}
+	}
+	r.Covers[fn] = rule
 }
 
 type FixtureResult struct {
@@ -67,6 +77,10 @@ func (r *Report) Rule(name, statement string, floor int) {
 }
 
 func (r *Report) add(rule, construct, instance string, v Verdict, pos, msg string, facts ...string) *Obligation {
+	if a, ok := r.Alias[rule]; ok {
+		instance = rule + "/" + instance
+		rule = a
+	}
 	o := &Obligation{Prop: r.Prop, Rule: rule, Construct: construct, Instance: instance, Verdict: v, Pos: pos, Msg: msg, Facts: facts}
 	r.Obs = append(r.Obs, o)
 	return o
